@@ -225,6 +225,20 @@ theorem locOk_ext {A A' : List Actor} {U : List Sup} (h : Ext A A') {c : Call} (
   | replied v => rfl
   | dropped => rfl
 
+/-- appending plain (`fwd`) messages to mailboxes keeps `Pre` -/
+theorem pre_ext {s : S} (h : Pre s) (A' : List Actor) (hext : Ext s.actors A') :
+    Pre { s with actors := A' } := by
+  refine ⟨h.pre, ?_, ?_, ?_⟩
+  · intro p c hc
+    exact locOk_ext hext (h.loc p c hc)
+  · intro a x' hx' p hp
+    obtain ⟨x, e, hx, rfl⟩ := ext_alive hext hx'
+    exact h.mb a x hx p (mem_call_extend.mp hp)
+  · intro a x' p hx'
+    obtain ⟨x, e, hx, rfl⟩ := ext_alive hext hx'
+    rw [count_call_extend]
+    exact h.nd a x p hx
+
 theorem resolve_inv {s : S} (h : Pre s) : Inv (resolve s) := by
   have hext : Ext s.actors (resolve s).actors := deliverForwards_ext _ _ _
   have hcalls : ∀ (p : Nat) (c' : Call), (resolve s).calls[p]? = some c' →
@@ -1102,6 +1116,9 @@ theorem pre_stepCore {s : S} (h : Pre s) (op : Op) : Pre (stepCore s op) := by
       · exact pre_sweep_sups h _
       · exact h
   | supexit u => exact pre_supExit h u
+  | cast a v =>
+    simp only [stepCore]
+    exact pre_ext h _ (Ext.modify s.actors a v)
 
 end Rpc
 
@@ -1536,6 +1553,7 @@ theorem own_stepCore {s : S} (hp : Pre s) (h : Own s) (op : Op) : Own (stepCore 
       · exact own_sweep h _
       · exact h
   | supexit u => exact own_supExit h u
+  | cast a v => exact own_calls_eq h rfl
 
 theorem own_run (ops : List Op) : Own (run ops) := by
   unfold run
